@@ -22,9 +22,11 @@ def run(fb, rep, tier, cfg):
     e11.r11c(fb, rep)
     e11.r11d(fb, rep)
     e11.r11e(fb, rep)
+    e11.r11g(fb, rep)
     from . import c08
     c08.e13b(fb, rep)
     # strict `let`: the always-on dead-code pass must keep every binding whose evaluation contains a call (shared with C04)
     from . import c04
     c04.r10a(fb, rep)
     c04.r10b(fb, rep)
+    c04.r10d(fb, rep)
